@@ -2,6 +2,9 @@ module nitroverif
 
 go 1.18
 
-require github.com/couchbase/nitro v0.0.0
+require (
+	github.com/anishathalye/porcupine v1.3.0
+	github.com/couchbase/nitro v0.0.0
+)
 
 replace github.com/couchbase/nitro => /repo
